@@ -306,6 +306,10 @@ def oracle(case, res):
     if res["error"]:
         out.append(("exception" if not res["error"].startswith("hang") else "hang",
                     "after %d of %d operations: %s" % (len(res["snaps"]), len(ops), res["error"])))
+    # observable timing clauses first, the alarm bookkeeping last
+    rank = {"wait-returned-early": 0, "wait-not-exact": 1, "wait-after-free-blocked": 2, "hang": 3, "exception": 4,
+            "handle-not-released-once": 5, "notifier-armed-after-free": 6, "alarm-off-grid": 7}
+    out.sort(key=lambda f: rank.get(f[0], 9))
     return out
 
 
@@ -471,8 +475,11 @@ def coq_case(name, case, res):
         s0 = res["snap0"] or [res["t0"], None, 0]
         p = (s0[1] - res["t0"]) if s0[1] is not None else -1
         flat = [p] + flat_snap(s0)
-        for s in res["snaps"]:
-            flat += flat_snap(s)
+        for o, s in zip(case["ops"], res["snaps"]):
+            if o[0] != "B":
+                flat += flat_snap(s)
+        if len(res["snaps"]) != len(case["ops"]):
+            flat.append(-1)             # the run stopped early: never equal to the model's list
         obs = "Some %s" % coq_list([zlit(x) for x in flat])
     return "Definition %s : case := (%s, %s, %s, %s).\n" % (
         name, coq_Q(case_P(case)), zlit(res["t0"]), coq_list([coq_op(o) for o in case["ops"]]), obs)
@@ -590,9 +597,22 @@ def run(ctx):
 
     sim = Sim()
     sim.install()
+    # A constructor that raises ValueError leaves an object without _notifier;
+    # its __del__ -> free() then dies with AttributeError, which CPython reports
+    # through sys.unraisablehook.  Outside C16 (nothing is armed or leaked):
+    # counted in the evidence instead of printed.
+    old_hook = sys.unraisablehook
+
+    def hook(u):
+        if "NotifierDelay.__del__" in repr(u.object) and isinstance(u.exc_value, AttributeError):
+            ctx.count("unraisable:AttributeError in __del__ after the constructor raised ValueError")
+        else:
+            old_hook(u)
+    sys.unraisablehook = hook
     try:
         return _run(ctx, sim)
     finally:
+        sys.unraisablehook = old_hook
         sim.enabled = False
         sim.remove()
 
@@ -650,7 +670,7 @@ def _run(ctx, sim):
             ctx.count("op=%s" % {"B": "body", "W": "wait", "F": "free", "X": "with-exit"}[o[0]])
 
     # ---- comparison inside Coq ----------------------------------------
-    per = 400
+    per = max(10, min(400, -(-len(cases) // 16)))
     items = []
     for k, sh in enumerate(shards(list(zip(cases, results)), per)):
         defs = "".join(coq_case("c%d" % i, c, res) for i, (c, res) in enumerate(sh))
